@@ -51,7 +51,7 @@ func GenParseFamily(w *Writer, r *Rng, t Tier) error {
 		// names that spell an axis or a node type, as prefix, as local part, or both
 		{
 			cr := r.Fork()
-			reserved := []string{"self", "child", "text", "node", "parent", "comment", "attribute", "ancestor-or-self", "following"}
+			reserved := []string{"self", "child", "text", "node", "parent", "comment", "attribute", "ancestor-or-self", "following", "div", "mod", "and", "or"}
 			rcfg := DefaultDocCfg()
 			rcfg.NamePool = reserved
 			rdoc, err := w.NewDoc(fmt.Sprintf("d%dr", di), GenEvents(cr, rcfg))
